@@ -975,6 +975,12 @@ func (u *Unit) toIface(st *State, v Val, to types.Type) Val {
 	if v.T == nil {
 		return v
 	}
+	if _, isTP := types.Unalias(v.T).(*types.TypeParam); isTP {
+		// a value of type-parameter type: some non-interface value of the instantiation's type - an opaque box whose
+		// dynamic type is left open (a type switch on it may take any case)
+		b := u.alloc(st, "box.typeparam")
+		return scalar(b, SInt, to)
+	}
 	if _, ok := v.T.Underlying().(*types.Interface); ok {
 		return scalar(v.S, SInt, to)
 	}
@@ -996,7 +1002,10 @@ func (u *Unit) toIface(st *State, v Val, to types.Type) Val {
 		T = types.Default(T)
 	}
 	b := u.alloc(st, "box."+typeKey(T))
-	st.assume(tEq(tApp("dyntype", b), u.typeID(T)))
+	if _, isTP := types.Unalias(T).(*types.TypeParam); !isTP {
+		// (a value of type-parameter type has the dynamic type of whatever the instantiation is: left open)
+		st.assume(tEq(tApp("dyntype", b), u.typeID(T)))
+	}
 	if v.Kind == KSlice {
 		u.storeAt(st, "BX$"+typeKey(T), T, b, v)
 	} else if isStructVal(T) || isArrayT(T) {
